@@ -276,7 +276,7 @@ class Engine:
             for t in h:
                 if t is None or exc_isa(exc, t):
                     return True
-        for (e, _w) in fr.contract.raises:
+        for (e, _w, _e) in fr.contract.raises:
             if exc_isa(exc, e):
                 return True
         return False
@@ -314,6 +314,8 @@ class Engine:
             if isinstance(cell, dict) and cell.get("__kind__") == "emptylist":
                 return z3.BoolVal(False)
             return z3.BoolVal(True)
+        if isinstance(v, VRecord) and v.cls == "cenum":
+            return v.fields["value"].t != 0
         if isinstance(v, (VConst, VRecord)):
             return z3.BoolVal(True)
         if isinstance(v, VOpt):
@@ -392,6 +394,14 @@ class Engine:
             return a.t == box(b)
         if isinstance(a, VConst) and isinstance(b, VConst):
             return z3.BoolVal(a.py == b.py)
+        if isinstance(a, VRecord) and a.cls == "cenum" and isinstance(b, (VInt, VBool)):
+            return a.fields["value"].t == self.as_int(st, b)
+        if isinstance(b, VRecord) and b.cls == "cenum" and isinstance(a, (VInt, VBool)):
+            return b.fields["value"].t == self.as_int(st, a)
+        if isinstance(a, VRecord) and isinstance(b, VRecord) and a.cls == b.cls == "cenum":
+            if a.fields["enum"].py != b.fields["enum"].py:
+                return z3.BoolVal(False)
+            return a.fields["value"].t == b.fields["value"].t
         if isinstance(a, VRecord) and isinstance(b, VRecord) and a.cls == b.cls:
             return z3.And(*[self.eq_vals(st, a.fields[k], b.fields[k]) for k in a.fields])
         if type(a) is not type(b):
@@ -421,6 +431,8 @@ class Engine:
         v = self.deref(st, v)
         if isinstance(v, VInt):
             return v.t
+        if isinstance(v, VRecord) and v.cls == "cenum":
+            return v.fields["value"].t
         if isinstance(v, VBool):
             return z3.If(v.t, z3.IntVal(1), z3.IntVal(0))
         if isinstance(v, VAny):
@@ -431,8 +443,14 @@ class Engine:
 
     def as_iseq(self, st, v, node=None):
         v = self.deref(st, v)
+        if isinstance(v, VOpt):
+            if not self.spec_mode:
+                self.implicit_error(st, z3.Not(v.isnone), "TypeError", node, "None-used-as-bytes")
+            v = v.value
         if isinstance(v, VSeq):
             return v
+        if isinstance(v, VNone) and self.spec_mode:
+            return VSeq(z3.Const("none_as_seq", ISq), "bytes")     # meaningless value of an ill-typed spec term
         if isinstance(v, VTuple) and all(isinstance(x, (VInt, VBool)) for x in v.items):
             t = IS.empty
             for x in v.items:
@@ -566,6 +584,12 @@ class Engine:
 
     def module_constant(self, module, n):
         node = module.assigns[n]
+        from . import cstructmodel as cm
+        if cm.is_cstruct_instance(module, n):
+            return VConst((module.modname, n), "cstruct")
+        if isinstance(node, ast.Attribute) and isinstance(node.value, ast.Name) and node.value.id in module.assigns \
+                and cm.is_cstruct_instance(module, node.value.id):
+            return self.getattr_(None, VConst((module.modname, node.value.id), "cstruct"), node.attr, node)
         # functools.partial binding -> partial constant
         if isinstance(node, ast.Call) and ast.unparse(node.func) in ("partial", "functools.partial"):
             base = self.resolve_global(ast.unparse(node.args[0]), module) if isinstance(node.args[0], ast.Name) else None
@@ -928,6 +952,10 @@ class Engine:
             parts = [e.value] + [x for x in (sl.lower, sl.upper) if x is not None]
             for s, vals in self.evs(parts, st):
                 base = self.deref(s, vals[0])
+                if isinstance(base, VOpt):
+                    if not self.spec_mode:
+                        self.implicit_error(s, z3.Not(base.isnone), "TypeError", e, "slice-of-None")
+                    base = base.value
                 rest = vals[1:]
                 lo = hi = None
                 if sl.lower is not None:
@@ -959,6 +987,10 @@ class Engine:
 
     def subscript(self, st, bv, iv, node):
         base = self.deref(st, bv)
+        if isinstance(base, VOpt):
+            if not self.spec_mode:
+                self.implicit_error(st, z3.Not(base.isnone), "TypeError", node, "subscript-of-None")
+            base = base.value
         if isinstance(base, VTuple):
             i = self.as_int(st, iv, node)
             if z3.is_int_value(i):
@@ -1006,7 +1038,7 @@ class Engine:
         if isinstance(v, VRecord):
             if attr in v.fields:
                 return v.fields[attr]
-            raise Unsupported(f"record {v.cls} has no field {attr}")
+            return VConst((v, attr), "boundmethod")
         if isinstance(v, VRef):
             cell = st.heap.get(v.ident)
             if isinstance(cell, dict) and cell.get("__kind__") in ("obj", "file"):
@@ -1014,6 +1046,47 @@ class Engine:
                     return cell[attr]
                 return VConst((v, attr), "boundmethod")
             return VConst((v, attr), "boundmethod")
+        if isinstance(v, VConst) and v.what == "cstruct":
+            from . import cstructmodel as cm
+            modname, inst = v.py
+            module = self.repo.module(modname)
+            defs = cm.module_cdefs(self, module, inst)
+            if attr in defs.structs:
+                return VConst((modname, inst, attr), "ctype")
+            if attr in defs.enums:
+                return VConst((modname, inst, attr), "cenumtype")
+            if attr in defs.defines:
+                return VInt(defs.defines[attr])
+            if attr in cm.PRIMS:
+                return VConst((modname, inst, attr), "cprim")
+            if attr in defs.unsupported:
+                raise Unsupported(f"cstruct type {attr}: {defs.unsupported[attr]}")
+            raise Unsupported(f"cstruct attribute {attr}")
+        if isinstance(v, VConst) and v.what == "cenumtype":
+            from . import cstructmodel as cm
+            modname, inst, ename = v.py
+            module = self.repo.module(modname)
+            defs = cm.module_cdefs(self, module, inst)
+            members = defs.enums[ename][1]
+            if attr in members:
+                return cm.enum_value(ename, inst, module, z3.IntVal(members[attr]))
+            raise Unsupported(f"enum {ename} has no member {attr}")
+        if isinstance(v, VRecord) and v.cls == "cenum" and attr == "name":
+            from . import cstructmodel as cm
+            modname, inst, ename = v.fields["enum"].py
+            defs = cm.module_cdefs(self, self.repo.module(modname), inst)
+            val = v.fields["value"].t
+            table = {}
+            for k, x in defs.enums[ename][1].items():
+                table[x] = k           # the last declared name of a value wins (dissect.cstruct 4.7, cross-checked)
+            if z3.is_int_value(val):
+                nm = table.get(val.as_long())
+                return lit_seq(nm, "str") if nm is not None else VNone()
+            term = IS.empty
+            for x, k in table.items():
+                term = z3.If(val == x, lit_seq(k, "str").t, term)
+            known = z3.Or(*[val == x for x in table]) if table else z3.BoolVal(False)
+            return VOpt(z3.Not(known), VSeq(term, "str"))
         if isinstance(v, VConst):
             if v.what in ("module", "extmodule"):
                 m = self.repo.module(v.py) if v.what == "module" else None
@@ -1036,6 +1109,8 @@ class Engine:
                 return VConst(f"{v.py}.{attr}", "builtin")
             if v.what == "ext":
                 return VConst(f"{v.py}.{attr}", "ext")
+            if v.what in ("aescipher", "hashobj"):
+                return VConst((v, attr), "boundmethod")
             if v.what == "class":
                 modname, cname = v.py.split(":")
                 m = self.repo.module(modname)
